@@ -254,6 +254,8 @@ def judge(ctx, shard, cases, rc, logs, tail, stats):
             import re as _re
             what = _re.sub(r"element \d+ \(key \S+\)|element \d+", "an element", bad[0])
             what = _re.sub(r": \[.*$", "", what)
+            what = _re.sub(r": expected elements.*$", "", what)
+            what = _re.sub(r"\d+ times", "several times", what)
             ctx.violation("%s: %s" % (vn, what), {"shard": shard, "variant": vn, "case": c, "findings": bad, "log": lg["log"]},
                           signature=signature(vn, bad[0]))
         else:
@@ -268,13 +270,15 @@ def signature(variant, what):
     """stable identification of the two defects of the unchanged tree found by this check (see known_findings.json)"""
     if "skips element" in what and variant.startswith("FeldmanHashSet"):
         return "feldman-iterator-skips-converting-slot"
+    if "erase_at(iterator) returned false" in what and variant.startswith("FeldmanHashSet"):
+        return "feldman-erase-at-false-after-slot-expanded"
     if "erase_at(iterator) returned false" in what and "IterableList" in variant:
         return "iterlist-erase-at-spurious-false-while-neighbour-insert-marks-data"
     return None
 
 
 def run(ctx):
-    srcs = sorted(glob.glob(os.path.join(HDIR, "tu_*.cpp")))
+    srcs = C14.shard_filter(sorted(glob.glob(os.path.join(HDIR, "tu_*.cpp"))))
     if ctx.replay:
         rp = json.load(open(ctx.replay))
         shard, case = rp.get("shard"), rp.get("case")
